@@ -29,8 +29,12 @@ lines.append("Each sub-agent saw only the text of one property and a scratch "
              "the defect to sit outside the function a reader of the property "
              "would inspect first (a shared helper, a factory, a default, an "
              "accessor, a script's argument handling, a memory-layout or "
-             "byte-order assumption) and to give silently wrong results. 80 "
-             "changes in total; "
+             "byte-order assumption) and to give silently wrong results; "
+             "round 5 (S5-*) asked the agent to list the clauses and "
+             "quantifier dimensions of the property and to break the one it "
+             "judged least likely to be exercised by a straightforward "
+             "randomised test (trailing clauses, error-path clauses, extremes "
+             "of ranges, rarely used options). 100 changes in total; "
              "the 'caught by' column says when a check had to be "
              "strengthened first.\n")
 lines.append("| seeded change | breaks | what it needs to manifest | caught by"
